@@ -446,3 +446,126 @@ def gen_doc(rng, type_="map", depth=0, p_key=0.35, odd=0.0, comments=0.0, cls=No
     if cm:
         d["__comments__"] = cm
     return d
+
+
+# ------------------------------------------------------------------ replay encoding / shrinking of documents
+def doc_to_json(v):
+    """JSON-able form keeping the dict class (for replay files)."""
+    if isinstance(v, dict):
+        return {"__cls__": codec.cls_code(v), "items": [[k, doc_to_json(x)] for k, x in v.items()]}
+    if isinstance(v, (list, tuple)):
+        return [doc_to_json(x) for x in v]
+    return v
+
+
+def doc_from_json(j):
+    from mappyfile.ordereddict import CaseInsensitiveOrderedDict as CI, DefaultOrderedDict as DD
+    if isinstance(j, dict) and "__cls__" in j:
+        items = [(k, doc_from_json(x)) for k, x in j["items"]]
+        c = j["__cls__"]
+        if c == 0:
+            return dict(items)
+        if c in (1, 2):
+            return DD(CI if c == 2 else None, items)
+        return CI(CI if c == 4 else None, items)
+    if isinstance(j, list):
+        return [doc_from_json(x) for x in j]
+    return j
+
+
+def _variants(v):
+    """Smaller variants of a document: drop one key / one list element, recursively."""
+    if isinstance(v, dict):
+        for k in list(v.keys()):
+            if k == "__type__":
+                continue
+            w = copy.copy(v)
+            del w[k]
+            yield w
+        for k in list(v.keys()):
+            for sub in _variants(v[k]):
+                w = copy.copy(v)
+                w[k] = sub
+                yield w
+    elif isinstance(v, list):
+        for i in range(len(v)):
+            yield v[:i] + v[i + 1:]
+        for i in range(len(v)):
+            for sub in _variants(v[i]):
+                yield v[:i] + [sub] + v[i + 1:]
+
+
+def shrink_doc(doc, fails, max_steps=400):
+    """Greedy structural shrinking: keep applying the first smaller variant that still fails."""
+    steps = 0
+    progress = True
+    while progress and steps < max_steps:
+        progress = False
+        for w in _variants(doc):
+            steps += 1
+            if steps >= max_steps:
+                break
+            try:
+                bad = fails(w)
+            except Exception:
+                bad = False
+            if bad:
+                doc = w
+                progress = True
+                break
+    return doc
+
+
+# ------------------------------------------------------------------ well-formed Mapfile dictionaries (the quantifier of C16 / C03)
+def _scalar(v):
+    return isinstance(v, (str, int, float)) and not isinstance(v, bool) or isinstance(v, bool)
+
+
+def _numlist(v, depth=0):
+    if isinstance(v, (int, float)) and not isinstance(v, bool):
+        return depth > 0
+    return isinstance(v, (list, tuple)) and len(v) > 0 and all(_numlist(x, depth + 1) for x in v)
+
+
+def wf_doc(d):
+    """A dictionary every value of which has a Mapfile form: typed objects, scalar or flat-list keyword
+    values, string-valued key-value blocks, numeric POINTS/PATTERN, string PROJECTION / repeated keys."""
+    from mappyfile.tokens import OBJECT_LIST_KEYS, REPEATED_KEYS
+    if isinstance(d, list):
+        return len(d) > 0 and all(isinstance(x, dict) and wf_doc(x) for x in d)
+    if not isinstance(d, dict) or not isinstance(d.get("__type__"), str):
+        return False
+    if d["__type__"] in KEYDICTS:
+        return all(isinstance(k, str) and (k.startswith("__") and k.endswith("__") or _scalar(v)) for k, v in d.items())
+    for k, v in d.items():
+        if not isinstance(k, str) or k == "":
+            return False
+        if k.startswith("__") and k.endswith("__"):
+            continue
+        if k in OBJECT_LIST_KEYS:
+            if not isinstance(v, list) or not all(isinstance(x, dict) and wf_doc(x) for x in v):
+                return False
+        elif k in KEYDICTS:
+            if not isinstance(v, dict) or not all(isinstance(kk, str) and (kk.startswith("__") and kk.endswith("__") or _scalar(x)) for kk, x in v.items()):
+                return False
+        elif k in ("pattern", "points"):
+            if not _numlist(v):
+                return False
+        elif k == "projection":
+            if not (isinstance(v, str) or isinstance(v, list) and v and all(isinstance(x, str) for x in v)):
+                return False
+        elif k in REPEATED_KEYS:
+            if not (isinstance(v, list) and all(isinstance(x, str) for x in v)):
+                return False
+        elif k == "config":
+            if not (isinstance(v, dict) and all(isinstance(x, str) for x in v.values())):
+                return False
+        elif isinstance(v, dict):
+            if not wf_doc(v):
+                return False
+        elif isinstance(v, (list, tuple)):
+            if not v or not all(_scalar(x) for x in v):
+                return False
+        elif not _scalar(v):
+            return False
+    return True
